@@ -385,3 +385,35 @@ func vxH12Client(clntDotu bool, verKind int) {
 	vxAssert(clnt.Dotu == vxAll(isU, clntDotu), "client-speaks-dotu-iff-both-sides-asked-for-it")
 	vxReach("connected")
 }
+
+
+// H12.retry: a refused Tversion leaves the connection as it was: a following Tversion negotiates from the
+// server's msize again.
+func vxH12Retry() {
+	smsize := vxU32("srv.msize")
+	vxAssume(smsize >= IOHDRSZ)
+	k := vxNewKit(false, false, smsize, true)
+	conn := k.conn
+	bad := vxU32("bad.msize")
+	vxAssume(bad < IOHDRSZ)
+	t1 := &Fcall{Type: Tversion, Tag: NOTAG, Fid: NOFID, Afid: NOFID, Newfid: NOFID, Msize: bad, Version: "9P2000"}
+	k.newReq(conn, t1, 256).Process()
+	r1 := k.replies(conn)
+	vxAssert(len(r1) == 1 && r1[0].Rc.Type == Rerror, "too-small-msize-refused")
+	vxAssert(conn.Msize == smsize, "refused-Tversion-leaves-msize")
+	good := vxU32("good.msize")
+	vxAssume(good >= IOHDRSZ)
+	t2 := &Fcall{Type: Tversion, Tag: NOTAG, Fid: NOFID, Afid: NOFID, Newfid: NOFID, Msize: good, Version: "9P2000"}
+	k.newReq(conn, t2, 256).Process()
+	r2 := k.replies(conn)
+	vxAssert(len(r2) == 1 && r2[0].Rc.Type == Rversion, "retry-answered-with-Rversion")
+	if len(r2) == 1 && r2[0].Rc.Type == Rversion {
+		want := smsize
+		if good < smsize {
+			want = good
+		}
+		vxAssert(r2[0].Rc.Msize == want, "retry-negotiates-min(client,server)")
+		vxAssert(conn.Msize == want, "retry-connection-msize")
+	}
+	vxReach("done")
+}
